@@ -1414,6 +1414,8 @@ def run(ctx):
     n_refs = 32 if quick else 220
     n_splits = 4 if quick else 6
     run_big(ctx, rng)
+    for _ in range(5 if quick else 30):
+        check_abc(ctx, rng)
     for i in range(n_refs):
         ref = Reference(rng, small=(i % 3 == 0))
         baseline = None
@@ -1475,6 +1477,248 @@ def check_var_order(ctx, rng, ref, cell_set, baseline):
     check_run(ctx, ref, cfg, baseline=baseline)
 
 
+# ---------------------------------------------------------------------------
+# the ABC-atlas entry point (cli/precompute_stats_abc.py), split_by_dataset
+# ---------------------------------------------------------------------------
+
+ABC_LABELS = ['WMB-10Xv2', 'Lab B 10Xv3', 'Zhuang-ABCA-1/2', 'donn\u00e9es 2',
+              'a b/c d', 'plain', 'X/Y', 'WMB-10XMulti', ' lead', 'Z\u00fcrich']
+
+
+def abc_reference(rng):
+    """a Reference whose taxonomy can be written as the ABC release CSVs
+    (labels without commas / quotes, unique across levels)"""
+    depth = rng.choice([1, 2, 3, 3])
+    level_names = ['class', 'subclass', 'cluster'][3 - depth:]
+    raw = gen.random_tree(rng, max_depth=depth, max_top=2, max_children=3,
+                          rows=False, max_leaves=6, level_names=level_names)
+    while not all(l in raw for l in level_names):
+        raw = gen.random_tree(rng, max_depth=depth, max_top=2,
+                              max_children=3, rows=False, max_leaves=6,
+                              level_names=level_names)
+    raw.pop('metadata', None)
+    ren = {}
+    for lvl in level_names:
+        keys = list(raw[lvl].keys())
+        order = list(range(len(keys)))
+        rng.shuffle(order)
+        for k, i in zip(keys, order):
+            ren[(lvl, k)] = '%s_%d' % (lvl[:4].upper(), i)
+    tree = {'hierarchy': list(level_names)}
+    for li, lvl in enumerate(level_names):
+        tree[lvl] = {}
+        for k, kids in raw[lvl].items():
+            tree[lvl][ren[(lvl, k)]] = [] if li == depth - 1 else [
+                ren[(level_names[li + 1], c)] for c in kids]
+    ref = Reference.__new__(Reference)
+    ref.tree = tree
+    ref.h = list(level_names)
+    ref.leaf_level = level_names[-1]
+    ref.leaves = list(tree[ref.leaf_level].keys())
+    ref.n_genes = rng.randint(1, 4)
+    ref.genes = gen.fresh_names(rng, ref.n_genes, prefix='g')
+    ref.genes = [g.replace(',', ';').replace('"', "'") for g in ref.genes]
+    if len(set(ref.genes)) != ref.n_genes:
+        ref.genes = ['gene_%d' % i for i in range(ref.n_genes)]
+    n_cells = rng.randint(max(4, len(ref.leaves)), 40)
+    ref.names = ['cell_%04d' % i for i in rng.sample(range(5000), n_cells)]
+    ref.label = {}
+    for nm in ref.names:
+        ref.label[nm] = None if rng.random() < 0.15 else rng.choice(ref.leaves)
+    # every cluster of a release has at least one cell in cell_metadata.csv
+    for leaf, nm in zip(ref.leaves, rng.sample(ref.names, len(ref.leaves))):
+        ref.label[nm] = leaf
+    nprng = np.random.default_rng(rng.randrange(2 ** 31))
+    ref.X = nprng.integers(0, 60, (n_cells, ref.n_genes)).astype(float)
+    ref.X[nprng.random(ref.X.shape) < 0.3] = 0.0
+    ref.ghost = {}
+    return ref
+
+
+def write_abc_csvs(d, ref, dataset_of, with_dataset_col=True):
+    import csv
+    d = pathlib.Path(d)
+    anc = ref.ancestors()
+    alias = {l: 100 + i for i, l in enumerate(sorted(ref.leaves))}
+    term = d / 'cluster_annotation_term.csv'
+    with open(term, 'w', newline='') as f:
+        w = csv.writer(f)
+        w.writerow(['label', 'cluster_annotation_term_set_label',
+                    'parent_term_label', 'parent_term_set_label'])
+        for li, lvl in enumerate(ref.h):
+            for node in ref.tree[lvl]:
+                if li == 0:
+                    w.writerow([node, lvl, '', ''])
+                else:
+                    par = [p for p, kids in ref.tree[ref.h[li - 1]].items()
+                           if node in kids][0]
+                    w.writerow([node, lvl, par, ref.h[li - 1]])
+    memb = d / 'cluster_to_cluster_annotation_membership.csv'
+    with open(memb, 'w', newline='') as f:
+        w = csv.writer(f)
+        w.writerow(['cluster_annotation_term_set_label',
+                    'cluster_annotation_term_set_name',
+                    'cluster_annotation_term_label',
+                    'cluster_annotation_term_name', 'cluster_alias'])
+        for leaf in ref.leaves:
+            for lvl in reversed(ref.h):
+                w.writerow([lvl, lvl + '_name', anc[leaf][lvl],
+                            anc[leaf][lvl] + ' readable', alias[leaf]])
+    meta = d / 'cell_metadata.csv'
+    with open(meta, 'w', newline='') as f:
+        w = csv.writer(f)
+        head = ['cell_label', 'library', 'cluster_alias']
+        if with_dataset_col:
+            head.append('dataset_label')
+        w.writerow(head)
+        for nm in ref.names:
+            if ref.label[nm] is None:
+                continue        # cells no csv mentions
+            row = [nm, 'lib0', alias[ref.label[nm]]]
+            if with_dataset_col:
+                row.append(dataset_of[nm])
+            w.writerow(row)
+    return term, memb, meta
+
+
+def check_abc(ctx, rng, case=None):
+    """PrecomputationABCRunner.run() (object made with __new__, .args filled
+    by hand: the argschema front end cannot be constructed here) with
+    split_by_dataset: every per-dataset file must be the direct census of
+    that dataset's cells, the combined file per cluster the row of a dataset
+    with the most cells"""
+    from cell_type_mapper.cli.precompute_stats_abc import (
+        PrecomputationABCRunner)
+    if case is None:
+        ref = abc_reference(rng)
+        n_ds = rng.choice([1, 2, 2, 3, 3])
+        labels = rng.sample(ABC_LABELS, n_ds)
+        while len(set(l.replace(' ', '_').replace('/', '.')
+                      for l in labels)) != n_ds:
+            labels = rng.sample(ABC_LABELS, n_ds)
+        dataset_of = {nm: rng.choice(labels) for nm in ref.names}
+        cfg = RunConfig(rng, ref, force={
+            'cell_set': None, 'norm': 'raw', 'dtype': 'float64',
+            'copy_over': False, 'rows': 10000})
+        split = rng.random() < 0.85
+        with_col = rng.random() < 0.9
+    else:
+        ref, cfg = ref_from_detail(case)
+        labels, dataset_of = case['labels'], case['dataset_of']
+        split, with_col = case['split'], case['with_col']
+    detail = ref_detail(ref, cfg, {'kind': 'abc', 'labels': labels,
+                                   'dataset_of': dataset_of, 'split': split,
+                                   'with_col': with_col})
+    tol = tol_of(cfg)
+    ctx.count('abc:datasets=%d' % len(labels))
+    ctx.count('abc:split=%s,col=%s' % (split, with_col))
+    for l in labels:
+        if ' ' in l or '/' in l:
+            ctx.count('abc:label-with-blank-or-slash')
+    with pipeline.workdir('c09abc_') as d:
+        d = pathlib.Path(d)
+        paths = write_inputs(d, ref, cfg)
+        term, memb, meta = write_abc_csvs(d, ref, dataset_of, with_col)
+        out_dir = d / 'output'
+        out_dir.mkdir()
+        scratch = d / 'scratch'
+        scratch.mkdir()
+        runner = PrecomputationABCRunner.__new__(PrecomputationABCRunner)
+        runner.args = {
+            'h5ad_path_list': [str(q) for q in paths],
+            'cell_metadata_path': str(meta),
+            'cluster_annotation_path': str(term),
+            'cluster_membership_path': str(memb),
+            'hierarchy': list(ref.h), 'normalization': 'raw',
+            'output_path': str(out_dir / 'precomputed_stats.h5'),
+            'split_by_dataset': split, 'clobber': False,
+            'n_processors': cfg.n_proc, 'tmp_dir': str(scratch),
+            'log_level': 'ERROR'}
+        with pipeline.quiet():
+            try:
+                runner.run()
+                err = None
+            except Exception as e:   # noqa
+                err = classify(e)
+        ctx.case(json.dumps(detail, sort_keys=True, default=repr)
+                 if len(labels) > 1 and split and with_col else None)
+        if err is not None:
+            ctx.violation('C09/abc/crash/' + err.split(':')[0],
+                          'the ABC entry point fails on a valid release: '
+                          + err, detail)
+            return
+        left = sorted(q.name for q in scratch.iterdir())
+        if left:
+            ctx.violation('C09/abc/scratch-left',
+                          'the ABC entry point leaves %r in tmp_dir' % left[:3],
+                          detail)
+        files = {}
+        if split and with_col:
+            used = [l for l in labels if any(
+                dataset_of[nm] == l and ref.label[nm] is not None
+                for nm in ref.names)]
+            for l in used:
+                san = l.replace(' ', '_').replace('/', '.')
+                files[l] = out_dir / ('precomputed_stats.%s.h5' % san)
+            files['combined'] = out_dir / 'precomputed_stats.combined.h5'
+        else:
+            used = []
+            files[None] = out_dir / 'precomputed_stats.h5'
+        per_census = {}
+        for key, pth in files.items():
+            if not pth.is_file():
+                ctx.violation('C09/abc/file-missing',
+                              'no statistics file for %r' % (key,), detail)
+                continue
+            got = read_stats(pth)
+            if key == 'combined':
+                continue
+            c2 = copy.copy(cfg)
+            if key is not None:
+                c2.cell_set = [nm for nm in ref.names if dataset_of[nm] == key]
+            want = census(ref, c2)
+            per_census[key] = want
+            probs = check_against_census(got, want, ref.leaves, ref.genes,
+                                         tol, ref.n_genes)
+            if probs:
+                ctx.violation(
+                    'C09/abc/dataset-census/' + str(probs[0][0]),
+                    'the file of dataset %r is not the statistics of that '
+                    "dataset's cells: %r" % (key, probs[0]),
+                    dict(detail, dataset=key, problems=probs[:5]))
+        if 'combined' in files and files['combined'].is_file():
+            got = read_stats(files['combined'])
+            probs = []
+            for leaf in ref.leaves:
+                r = got['cluster_to_row'].get(leaf)
+                if r is None:
+                    probs.append(('cluster_to_row', leaf))
+                    continue
+                ns = {l: (per_census[l].get(leaf) or {'n': 0})['n']
+                      for l in used if l in per_census}
+                best = max(ns.values()) if ns else 0
+                ok = False
+                for l, n in ns.items():
+                    if n != best:
+                        continue
+                    one = {leaf: per_census[l].get(leaf)} \
+                        if per_census[l].get(leaf) else {}
+                    sub = dict(got, cluster_to_row={leaf: 0},
+                               n_cells=got['n_cells'][[r]],
+                               **{k: got[k][[r], :] for k in STAT_KEYS})
+                    if not check_against_census(sub, one, [leaf], ref.genes,
+                                                tol, ref.n_genes):
+                        ok = True
+                if not ok:
+                    probs.append(('row', leaf, int(got['n_cells'][r]), best))
+            if probs:
+                ctx.violation(
+                    'C09/abc/combined/' + str(probs[0][0]),
+                    'the combined file does not hold, per cluster, the row '
+                    'of the dataset with the most cells: %r' % (probs[0],),
+                    dict(detail, problems=probs[:5]))
+
+
 def run_big(ctx, rng):
     """clusters of 256-700+ cells spread over >= 2 workers: the totals of
     n_cells / gt0 / gt1 / ge1 exceed what an 8-bit array could hold although
@@ -1514,6 +1758,9 @@ def replay(ctx, data, from_corpus=False):
     kind = d.get('kind')
     if kind == 'names':
         stagefiles_util.replay_names(ctx, d)
+        return
+    if kind == 'abc':
+        check_abc(ctx, None, case=d)
         return
     if kind not in ('precompute', 'truncate', 'truncate-bad', 'merge', 'read'):
         if not from_corpus:
